@@ -101,8 +101,24 @@ func findDeb2Member
     invariant found != nil ==> (forall k string :: visited(k) && has(archive, k) && archive[k] != nil && hasPrefix(archive[k].Name, prefix) ==> archive[k] == found)
 
 // decompressors, archive/tar and the reflective control decoder are outside the verifier: assumed, not verified
-trusted func loadDeb2Control
-  modifies *deb
+trusted func (*ArEntry).Tarfile
+  ensures result2 != nil ==> result0 == nil && result1 == nil
+  ensures result2 == nil ==> result0 != nil && fresh(result0) && result0.pos == 0 && result1 != nil
+
+// the control file of a .deb is the FIRST member of control.tar.* whose cleaned name is "control" (dpkg writes
+// "./control", other builders "control"): every member before it was passed over because its name is something else,
+// and the decoder is run on the tar reader positioned at that member, into deb.Control
+func loadDeb2Control
+  requires deb != nil
+  ensures result == nil ==> callres("(*deb.ArEntry).Tarfile", 1, 0).pos >= 1 && cleanPath(tarName(callres("(*deb.ArEntry).Tarfile", 1, 0), callres("(*deb.ArEntry).Tarfile", 1, 0).pos - 1)) == "control"
+  ensures result == nil ==> (forall j int :: 0 <= j && j < callres("(*deb.ArEntry).Tarfile", 1, 0).pos - 1 ==> cleanPath(tarName(callres("(*deb.ArEntry).Tarfile", 1, 0), j)) != "control")
+  ensures result == nil ==> is(callarg("control.Unmarshal", -1, 0), *Control) && as(callarg("control.Unmarshal", -1, 0), *Control) == &deb.Control
+  ensures result == nil ==> is(callarg("control.Unmarshal", -1, 1), *tar.Reader) && as(callarg("control.Unmarshal", -1, 1), *tar.Reader) == callres("(*deb.ArEntry).Tarfile", 1, 0)
+  modifies *
+  loop 1:
+    invariant tarball != nil && tarball == callres("(*deb.ArEntry).Tarfile", 1, 0) && tarball.pos >= 0 && closer != nil && deb != nil
+    invariant forall j int :: 0 <= j && j < tarball.pos ==> cleanPath(tarName(tarball, j)) != "control"
+    decreases tarCount(tarball) - tarball.pos
 trusted func loadDeb2Data
   modifies *deb
 
@@ -168,7 +184,7 @@ layout Control
   field "Homepage" scalar
   field "Description" scalar
 
-property C10: layout Control
+property C10: layout Control, loadDeb2Control
 
 property C13: toDecimal, checkAr, LoadAr, parseArEntry, (*Ar).Next
 property C15: toDecimal, checkAr, LoadAr, parseArEntry, (*Ar).Next, findDeb2Member, loadDeb2, loadDeb
